@@ -49,6 +49,7 @@ type Result struct {
 	Matched    []string       // fetch mode: returned rule names
 	FinalReal  string         // canonical final fact state
 	MethodCalls map[string]int
+	Callbacks   int      // number of callbacks listener 0 received
 	Eligible    []EvInfo // events at which a fault may be injected (clean runs)
 	TimeAt      []int64  // simulated time of each event (index = seq-1)
 }
@@ -192,6 +193,8 @@ type run struct {
 
 	cancelled bool
 	cancelSeq int
+	callbacks int // callbacks of listener 0 so far
+	cancelInCallback string
 	evalAfterCancel   bool
 	firingAfterCancel bool
 
@@ -330,7 +333,7 @@ func (r *run) step(ev *seams.Event) seams.FaultKind {
 			r.violate("C11.write-in-fetch", fmt.Sprintf("FetchMatchingRules performed a write: %s", ev))
 		case r.phase != "action":
 			r.violate("C03.write-outside-firing", fmt.Sprintf("write event outside any firing: %s", ev))
-		case r.cancelled && r.firingStart > r.cancelSeq:
+		case r.cancelled && r.firingStart >= r.cancelSeq:
 			r.violate("C15.action-after-cancel", fmt.Sprintf("action event %s belongs to a firing of %s that started at event %d, after cancellation at event %d", ev, r.firingRule, r.firingStart, r.cancelSeq))
 		}
 	}
@@ -432,10 +435,26 @@ func (r *run) visit(site, key string) {
 
 // Listener callbacks -----------------------------------------------------------------------
 
+// callbackCancel implements cancellation from inside a listener callback.
+func (r *run) callbackCancel(id int, what string) {
+	if id != 0 {
+		return
+	}
+	r.callbacks++
+	r.res.Callbacks = r.callbacks
+	if !r.cancelled && r.sc.CancelAtCallback > 0 && r.callbacks == r.sc.CancelAtCallback {
+		// takes effect after the last seam event and before the next one
+		r.cancelled, r.cancelSeq = true, r.seq
+		r.cancelInCallback = what
+		r.logf("-- cancel() inside listener callback %d (%s)", r.callbacks, what)
+	}
+}
+
 func (r *run) OnBegin(id int, cycle uint64) {
 	if r.aborted != "" {
 		return
 	}
+	r.callbackCancel(id, "begin")
 	r.lsnSeq[id] = append(r.lsnSeq[id], fmt.Sprintf("B%d", cycle))
 	if id == 0 {
 		r.logf("-- listener Begin(%d)", cycle)
@@ -447,6 +466,7 @@ func (r *run) OnEval(id int, cycle uint64, re *ast.RuleEntry, cand bool) {
 	if r.aborted != "" {
 		return
 	}
+	r.callbackCancel(id, "eval")
 	r.lsnSeq[id] = append(r.lsnSeq[id], fmt.Sprintf("E%d:%s:%v", cycle, re.RuleName, cand))
 	if id == 0 {
 		r.logf("-- listener Eval(%d,%s,%v)", cycle, re.RuleName, cand)
@@ -459,6 +479,7 @@ func (r *run) OnExec(id int, cycle uint64, re *ast.RuleEntry) {
 	if r.aborted != "" {
 		return
 	}
+	r.callbackCancel(id, "exec")
 	r.lsnSeq[id] = append(r.lsnSeq[id], fmt.Sprintf("X%d:%s", cycle, re.RuleName))
 	if id == 0 {
 		r.logf("-- listener Exec(%d,%s)", cycle, re.RuleName)
